@@ -98,7 +98,13 @@ ReadEnd ==
                  /\ S' = Put(e.sk, [s EXCEPT !.rstRead = e.code])
   /\ l' = l + 1 /\ UNCHANGED cur
 
-TNext == Reset \/ Write \/ Finish \/ ResetCall \/ Chunk \/ ReadEnd
+\* "no byte is ever lost": at the end of a run a sender that is established, on a validated path,
+\* with nothing in flight and neither loss nor pacing timer armed has no stream bytes outstanding
+\* (bytes that are neither acknowledged, nor in flight, nor waiting for a timer will never arrive)
+End == /\ Is("End") /\ bad' = bad \cup Flag(Len(e.abandoned) = 0, "UnackedBytesAbandoned")
+       /\ l' = l + 1 /\ UNCHANGED <<S, cur>>
+
+TNext == Reset \/ Write \/ Finish \/ ResetCall \/ Chunk \/ ReadEnd \/ End
 TraceSpec == TInit /\ [][TNext]_vars
 
 Watch == TLCSet(1, <<l, bad, cur>>) /\ bad = {}
